@@ -2668,6 +2668,14 @@ CORPUS = [
     ('gmd', lambda: {'A': enc(np.array([[6.0, 8, 0, 4], [8, 6, 7, 6], [10, 9, 7, 3], [6, 2, 9, 2]]))}),
     ('gmd', lambda: {'A': enc(3.0 * np.eye(3))}),
 ]
+# gmd, `flag` branch (no rotation): by theorem (gmd_partner_small) it is exact only when the pivot equals the
+# geometric mean; these inputs have singular values equal to sigma_bar EXACTLY in binary64 (exp(mean(log S)) == S),
+# so the branch is taken with d[k] == d[i] == sigma_bar -- a test made strict there divides 0 by 0.  The last one
+# reaches the branch after a genuine rotation (S = 4, 2, 1, sigma_bar = 2).
+GMD_EXACT_MEAN = [np.eye(2), np.eye(3), 2.0 * np.eye(2), 0.5 * np.eye(3), np.eye(3)[[1, 2, 0]],
+                  np.diag([1.0, -1.0, 1.0]), np.eye(3)[:, :2], np.eye(2, 4), 1j * np.eye(2),
+                  np.diag([4.0, 2.0, 1.0]), np.diag([1.0, 4.0, 2.0])[:, [2, 0, 1]]]
+CORPUS += [('gmd', (lambda a: (lambda: {'A': enc(a)}))(a_)) for a_ in GMD_EXACT_MEAN]
 
 
 def oracles(ctx, scale):
@@ -2675,6 +2683,10 @@ def oracles(ctx, scale):
     rng = g.rng
     for call, mk in CORPUS:
         run_oracle(ctx, call, mk(), key=('corpus', call, repr(mk())[:80]))
+    for a in GMD_EXACT_MEAN:
+        sv = np.linalg.svd(a, compute_uv=False)
+        if np.any(sv == math.exp(np.mean(np.log(sv)).item())):
+            ctx.branch('gmd:singular-value-equals-mean-exactly')
     for _ in range(40 * scale):
         a, mm, kind = gen_proj_case(g)
         run_oracle(ctx, 'Projection', {'A': enc(a), 'M': enc(mm)})
@@ -2792,7 +2804,8 @@ def check(ctx):
                              'chordal:dims-equal', 'chordal:dims-differ', 'whiten:rank1', 'whiten:spectrum',
                              'uisd:full-diagonal', 'uisd:short-diagonal', 'select:peig', 'select:leig',
                              'select:error', 'lrsv:wide', 'lrsv:tall-or-square', 'gpcm:wide',
-                             'gpcm:tall-or-square', 'gmd:p=len(S)', 'gmd:p<len(S)', 'conversion']
+                             'gpcm:tall-or-square', 'gmd:p=len(S)', 'gmd:p<len(S)',
+                             'gmd:singular-value-equals-mean-exactly', 'conversion']
     for side in ('corr-', 'oracle-'):
         ctx.required_branches += [side + b for b in (
             'R1:float32/complex64', 'R1:integer-dtype', 'R1:scalar-int8', 'R1:scalar-uint8', 'R1:scalar-int16',
